@@ -374,6 +374,9 @@ fn bfs_two_signs(ctx: &Ctx, depth: u32, max_states: usize) {
 pub fn run(ctx: &Ctx) {
     bfs_two_signs(ctx, ctx.tier.pick(14, 18), ctx.tier.pick(600_000, 6_000_000));
     run_generated(ctx, "bus-history", ctx.tier.pick(30_000, 1_000_000), || bus_case_strategy(60), |c, st| check_bus(c, st));
+    crate::engine::with_logging(|| {
+        run_generated(ctx, "bus-history+logging", ctx.tier.pick(6_000, 200_000), || bus_case_strategy(60), |c, st| check_bus(c, st));
+    });
     run_generated(ctx, "bus-history-long", ctx.tier.pick(2_000, 60_000), || bus_case_strategy(300), |c, st| check_bus(c, st));
 }
 
